@@ -688,9 +688,27 @@ func (x *VC) applyContract(callee *ssa.Function, c *Contract, key string, sig *t
 	if c.ModAll {
 		x.havocAll(st)
 	} else {
+		if !c.Pure {
+			x.havocComp(st, x.allocComp()) // any callee may allocate (monotone)
+		}
 		for _, m := range c.Modifies {
-			for _, cp := range x.resolveModifies(m, env) {
-				x.havocComp(st, cp)
+			sel, at := splitModAt(m)
+			var atRef string
+			if at != "" {
+				ae, err := parseSpecExpr(at)
+				if err != nil {
+					x.refuse("modifies %s: %v", m, err)
+				}
+				atRef = x.evalSpec(ae, env).T
+			}
+			for _, cp := range x.resolveModifies(sel, env) {
+				if atRef != "" && cp.Idx == "Int" && !x.immutableComp(cp.Key) {
+					// only the named object changes: H' = H[ref := arbitrary]
+					nv := x.declare(cp.Base+"_at", cp.Elem)
+					x.set(st, cp, sStore(x.get(st, cp), atRef, nv))
+				} else {
+					x.havocComp(st, cp)
+				}
 				if x.writeLog != nil {
 					x.writeLog[cp.Key] = true
 				}
@@ -714,6 +732,12 @@ func (x *VC) applyContract(callee *ssa.Function, c *Contract, key string, sig *t
 	for _, e := range c.Ensures {
 		cond := x.evalSpec(e.E, env2)
 		x.assume(reach, cond.T)
+	}
+	// vacuity guard: the assumed postcondition must not contradict what is known at this point
+	if len(c.Ensures) > 0 && x.specMode == 0 {
+		if o := x.addObl("cover:after-call", key, pos, "true", "true"); o != nil {
+			o.Expect = "sat"
+		}
 	}
 	return res
 }
@@ -854,4 +878,12 @@ func isStringer(f *ssa.Function) bool {
 		return true
 	}
 	return false
+}
+
+// splitModAt splits "Type.field @ expr" (object-granular modifies) into selector and object.
+func splitModAt(m string) (string, string) {
+	if i := strings.Index(m, " @ "); i >= 0 {
+		return strings.TrimSpace(m[:i]), strings.TrimSpace(m[i+3:])
+	}
+	return m, ""
 }
